@@ -13,6 +13,10 @@ use tlsh_verif::{monitors, oracle, Ctx, Tier};
 #[global_allocator]
 static GLOBAL: tlsh_verif::alloc_count::CountingAllocator = tlsh_verif::alloc_count::CountingAllocator;
 
+fn out_path_for_dump(args: &[String]) -> Option<String> {
+    args.iter().position(|a| a == "--out").and_then(|i| args.get(i + 1).cloned())
+}
+
 fn usage() -> ! {
     eprintln!("usage: probe <monitor>|selftest|list|merge-fp ... (see source)");
     std::process::exit(2);
@@ -84,9 +88,9 @@ fn main() {
     }
 
     if monitor == "selftest" {
-        match oracle::selfcheck() {
-            Ok(()) => {
-                println!("oracle selfcheck ok");
+        match oracle::selfcheck().and_then(|_| oracle::katcheck()) {
+            Ok(n) => {
+                println!("oracle selfcheck ok ({} known-answer vectors reproduced by the models)", n);
                 return;
             }
             Err(e) => {
@@ -94,6 +98,31 @@ fn main() {
                 std::process::exit(3);
             }
         }
+    }
+    if monitor == "model-dump" {
+        // results of the Rust reference model on seeded inputs, for the Python cross-check
+        let n = ctx.param_u64("n", 60);
+        let mut out = String::new();
+        for i in 0..n {
+            let mut rng = ctx.rng("model-dump", i);
+            let len = match rng.below(4) {
+                0 => rng.below(70) as usize,
+                1 => *rng.pick(&[9usize, 10, 49, 50, 255, 256, 257]),
+                _ => tlsh_verif::gen::byte_length(&mut rng, false).min(1500),
+            };
+            let (data, _) = tlsh_verif::gen::content(&mut rng, len, None);
+            for (nb, ck) in [(48usize, 1usize), (128, 1), (128, 3), (256, 1), (256, 3)] {
+                for o in 0..32u8 {
+                    let hexd = if data.is_empty() { "-".to_string() } else { tlsh_verif::json::hex(&data) };
+                    out.push_str(&format!("{} {} {} {} {}\n", hexd, nb, ck, o, oracle::model_text(&data, nb, ck, oracle::Opts(o))));
+                }
+            }
+        }
+        match &out_path_for_dump(&args) {
+            Some(p) => std::fs::write(p, out).expect("write dump"),
+            None => print!("{}", out),
+        }
+        return;
     }
     if monitor == "list" {
         for (m, p) in monitors::MONITORS {
